@@ -306,6 +306,7 @@ class BDoc:
         self.layout = layout          # [("URL", path, [methods]) | ("M", path, method)]
         self.paths_at = {}            # host key -> [names]   (one Path directive per host)
         self.body_override = {}       # host key -> body lines
+        self.by_type = False          # Path bodies are references to user types; equal name lists share one type
 
     def hosts(self):
         out = []
@@ -342,11 +343,16 @@ class BDoc:
                 return []
             names = self.paths_at.get(h, [])
             body = self.body_override.get(h) or ("{\n" + ",\n".join('  "%s": 1' % x for x in names) + "\n}")
+            if self.by_type and h not in self.body_override and names:
+                tn = "@pt_" + "_".join(names)
+                self.types[tn] = body
+                body = tn
             nd = n("Path", body=body)
             self.path_nodes[h] = nd
             return [nd]
 
         self.dir_nodes = {}
+        self.types = {}
         for i, it in enumerate(self.layout):
             if it[0] == "URL":
                 kids = pathdir(("U", i))
@@ -361,6 +367,8 @@ class BDoc:
                 mn = n(it[2] + " " + it[1], *(pathdir(("M", i)) + [n("200 any")]))
                 self.dir_nodes[("M", i)] = mn
                 nodes.append(mn)
+        for tn, body in self.types.items():
+            nodes.append(n("TYPE " + tn, body=body))
         return nodes
 
 
@@ -433,6 +441,22 @@ def stage_binding(cx):
     for _ in range(250 if quick else 4000):
         docs.append(("random", gen_bdoc(rnd)))
     docs.append(("nothing-declared", BDoc(lay)))
+    # Path bodies written as references to user types; several Path directives name the SAME type
+    lay_t = [("URL", "/cats/{id}", ["GET"]), ("URL", "/dogs/{id}", ["GET", "PUT"]), ("M", "/birds/{id}", "GET"), ("URL", "/cats/{id}/toys/{toy}", ["POST"])]
+    hosts_t = [("U", 0), ("U", 1), ("UM", 1, 1), ("M", 2), ("U", 3)]
+    for mask in range(1, 2 ** len(hosts_t)):
+        d = BDoc(lay_t)
+        d.by_type = True
+        for k, h in enumerate(hosts_t):
+            if mask >> k & 1:
+                d.paths_at[h] = ["toy"] if h == ("U", 3) else ["id"]
+        if ("U", 1) in d.paths_at and ("UM", 1, 1) in d.paths_at:
+            continue      # the same prefix twice
+        docs.append(("shared-type", d))
+    for _ in range(60 if quick else 600):
+        d = gen_bdoc(rnd)
+        d.by_type = True
+        docs.append(("random-by-type", d))
     for label, d in docs:
         cases.append((label, d, ("ok",)))
     # faulty variants
